@@ -155,9 +155,15 @@ func (e *exec) reconcile() {
 		changed = false
 		// goroutines woken at the same instant ran concurrently: the one that found the map entry
 		// (now at a gate) is linearised before the one that found nothing (returned)
-		for pass := 0; pass < 2; pass++ {
+		for pass := 0; pass < 3; pass++ {
 			for _, l := range e.lis {
-				if (e.r.pend(l.gid) != nil) != (pass == 0) {
+				k := 2 // returned or parked
+				if pc := e.r.pend(l.gid); pc != nil && pc.op == "cas" {
+					k = 0 // was live when it looked: before any release that may have cancelled it
+				} else if pc != nil {
+					k = 1
+				}
+				if k != pass {
 					continue
 				}
 				for e.reconcileLi(l) {
@@ -353,7 +359,7 @@ func (e *exec) enabled(c choice) bool {
 }
 
 // watchdog: real time the harness waits for a thread it has just stimulated
-const patience = 2 * time.Second
+const patience = 3 * time.Second
 
 func (e *exec) stuck(what string) {
 	if e.err == nil {
@@ -602,7 +608,7 @@ func (e *exec) apply(c choice) bool {
 		if dt <= 0 {
 			return false // nothing armed and no amount asked for
 		}
-		e.r.clock.Advance(nsDur(dt))
+		e.r.clock.Advance(nsDur(dt), func() { e.settle() })
 		if !e.settle() {
 			break
 		}
@@ -615,7 +621,7 @@ func (e *exec) apply(c choice) bool {
 		if dt <= 0 {
 			return false
 		}
-		e.r.clock.Advance(nsDur(dt))
+		e.r.clock.Advance(nsDur(dt), func() { e.settle() })
 		if !e.settle() {
 			break
 		}
